@@ -2079,6 +2079,16 @@ func applyParaEdits(pieces []paraPiece, edits []paraEdit) []paraPiece {
 // 占位符可以被拆分在多个Run中；保留下来的每个字符保持其所在Run的格式，替换值使用占位符
 // 第一个字符所在Run的格式，没有文本的Run（分页符、图片等）保持在原来的位置。
 func (te *TemplateEngine) replaceVariablesInParagraph(para *Paragraph, data *TemplateData) error {
+	return te.renderParagraph(para, data.Variables, func(condition string) bool {
+		condValue, exists := data.Conditions[condition]
+		return exists && condValue
+	}, data, false)
+}
+
+// renderParagraph 是段落渲染的核心：variables 提供占位符的值，holds 判断条件是否成立；
+// loopData 不为 nil 时先展开段落内的 {{#each}}...{{/each}}；stripLoopMarkers 为 true 时
+// 删除循环标记本身（用于表格循环行，循环由行的复制完成）。
+func (te *TemplateEngine) renderParagraph(para *Paragraph, variables map[string]interface{}, holds func(string) bool, loopData *TemplateData, stripLoopMarkers bool) error {
 	// 展开段落内容
 	pieces := make([]paraPiece, 0)
 	hasText := false
@@ -2100,9 +2110,23 @@ func (te *TemplateEngine) replaceVariablesInParagraph(para *Paragraph, data *Tem
 	sourceRuns := para.Runs
 
 	// 先处理循环语句（包括非表格循环）：循环展开后整段使用第一个文本Run的格式
-	fullText, _ := paraPiecesText(pieces)
 	changed := false
-	if processedText, hasLoopChanges := te.processNonTableLoops(fullText, data); hasLoopChanges {
+	if stripLoopMarkers {
+		text, _ := paraPiecesText(pieces)
+		markerEdits := make([]paraEdit, 0)
+		for _, m := range regexp.MustCompile(`\{\{#each\s+\w+\}\}|\{\{/each\}\}`).FindAllStringIndex(text, -1) {
+			markerEdits = append(markerEdits, paraEdit{start: m[0], end: m[1]})
+		}
+		if len(markerEdits) > 0 {
+			pieces = applyParaEdits(pieces, markerEdits)
+			changed = true
+		}
+	}
+	fullText, _ := paraPiecesText(pieces)
+	if loopData == nil {
+		loopData = NewTemplateData()
+	}
+	if processedText, hasLoopChanges := te.processNonTableLoops(fullText, loopData); hasLoopChanges {
 		firstTextRun := 0
 		for _, piece := range pieces {
 			if !piece.anchor {
@@ -2129,17 +2153,16 @@ func (te *TemplateEngine) replaceVariablesInParagraph(para *Paragraph, data *Tem
 	elsePattern := regexp.MustCompile(`(?s)^(.*?)\{\{else\}\}(.*)$`)
 	edits := make([]paraEdit, 0)
 	for _, m := range ifElsePattern.FindAllStringSubmatchIndex(text, -1) {
-		condition := text[m[2]:m[3]]
+		conditionHolds := holds(text[m[2]:m[3]])
 		bodyStart, bodyEnd := m[4], m[5]
 		keepStart, keepEnd := bodyStart, bodyEnd
-		condValue, exists := data.Conditions[condition]
 		if em := elsePattern.FindStringSubmatchIndex(text[bodyStart:bodyEnd]); em != nil {
-			if exists && condValue {
+			if conditionHolds {
 				keepStart, keepEnd = bodyStart+em[2], bodyStart+em[3]
 			} else {
 				keepStart, keepEnd = bodyStart+em[4], bodyStart+em[5]
 			}
-		} else if !(exists && condValue) {
+		} else if !conditionHolds {
 			keepStart, keepEnd = bodyStart, bodyStart
 		}
 		if keepStart > m[0] {
@@ -2159,7 +2182,7 @@ func (te *TemplateEngine) replaceVariablesInParagraph(para *Paragraph, data *Tem
 	varPattern := regexp.MustCompile(`\{\{(\w+)\}\}`)
 	edits = edits[:0]
 	for _, m := range varPattern.FindAllStringSubmatchIndex(text, -1) {
-		if value, exists := data.Variables[text[m[2]:m[3]]]; exists {
+		if value, exists := variables[text[m[2]:m[3]]]; exists {
 			edits = append(edits, paraEdit{start: m[0], end: m[1], replacement: te.interfaceToString(value)})
 		}
 	}
@@ -2386,21 +2409,19 @@ func (te *TemplateEngine) renderTableTemplate(table *Table, data *TemplateData) 
 		return nil
 	}
 
-	// 获取列表数据
-	listData, exists := data.Lists[listVarName]
-	if !exists || len(listData) == 0 {
-		// 删除模板行
-		table.Rows = append(table.Rows[:templateRowIndex], table.Rows[templateRowIndex+1:]...)
-		return nil
-	}
+	// 获取列表数据（列表不存在或为空时，模板行不产生任何行）
+	listData := data.Lists[listVarName]
 
 	// 保存模板行
 	templateRow := table.Rows[templateRowIndex]
 	newRows := make([]TableRow, 0)
 
-	// 保留模板行之前的行（深度克隆以保持样式）
-	for _, row := range table.Rows[:templateRowIndex] {
-		clonedRow := te.cloneTableRow(&row)
+	// 模板行之前的行：深度克隆以保持样式，并替换其中的变量
+	for idx := range table.Rows[:templateRowIndex] {
+		clonedRow := te.cloneTableRow(&table.Rows[idx])
+		if err := te.renderTableRow(clonedRow, data); err != nil {
+			return err
+		}
 		newRows = append(newRows, *clonedRow)
 	}
 
@@ -2408,102 +2429,42 @@ func (te *TemplateEngine) renderTableTemplate(table *Table, data *TemplateData) 
 	for _, item := range listData {
 		newRow := te.cloneTableRow(&templateRow)
 
-		// 在新行中替换变量
+		// 当前项的字段优先于全局变量；条件语句针对当前项的字段
+		variables := make(map[string]interface{})
+		for key, value := range data.Variables {
+			variables[key] = value
+		}
+		holds := func(condition string) bool {
+			condValue, exists := data.Conditions[condition]
+			return exists && condValue
+		}
 		if itemMap, ok := item.(map[string]interface{}); ok {
-			for i := range newRow.Cells {
-				for j := range newRow.Cells[i].Paragraphs {
-					// 合并所有Run的文本
-					fullText := ""
-					originalRuns := newRow.Cells[i].Paragraphs[j].Runs
-					for _, run := range originalRuns {
-						fullText += run.Text.Content
-					}
+			for key, value := range itemMap {
+				variables[key] = value
+			}
+			holds = func(condition string) bool {
+				condValue, exists := itemMap[condition]
+				return exists && templateValueTruthy(condValue)
+			}
+		}
 
-					// 移除模板语法标记
-					content := fullText
-					content = regexp.MustCompile(`\{\{#each\s+\w+\}\}`).ReplaceAllString(content, "")
-					content = regexp.MustCompile(`\{\{/each\}\}`).ReplaceAllString(content, "")
-
-					// 替换变量
-					for key, value := range itemMap {
-						placeholder := fmt.Sprintf("{{%s}}", key)
-						content = strings.ReplaceAll(content, placeholder, te.interfaceToString(value))
-					}
-
-					// 处理条件语句
-					content = te.renderLoopConditionals(content, itemMap)
-
-					// 重建Run结构，更好地保持样式继承
-					if len(originalRuns) > 0 {
-						// 寻找第一个有实际内容或样式的Run作为样式模板
-						var templateRun *Run
-						for k := range originalRuns {
-							if originalRuns[k].Properties != nil || originalRuns[k].Text.Content != "" {
-								templateRun = &originalRuns[k]
-								break
-							}
-						}
-
-						if templateRun != nil {
-							newRun := te.cloneRun(templateRun)
-							newRun.Text.Content = content
-							newRow.Cells[i].Paragraphs[j].Runs = []Run{newRun}
-						} else {
-							// 使用第一个Run但确保基本样式
-							newRun := te.cloneRun(&originalRuns[0])
-							newRun.Text.Content = content
-							// 确保基本的字体设置
-							if newRun.Properties == nil {
-								newRun.Properties = &RunProperties{}
-							}
-							if newRun.Properties.FontFamily == nil {
-								newRun.Properties.FontFamily = &FontFamily{
-									ASCII:    "仿宋",
-									HAnsi:    "仿宋",
-									EastAsia: "仿宋",
-								}
-							}
-							newRow.Cells[i].Paragraphs[j].Runs = []Run{newRun}
-						}
-					} else {
-						// 如果没有原始Run，创建新的但尝试继承段落样式
-						newRun := Run{
-							Text: Text{Content: content},
-							Properties: &RunProperties{
-								FontFamily: &FontFamily{
-									ASCII:    "仿宋",
-									HAnsi:    "仿宋",
-									EastAsia: "仿宋",
-								},
-								Bold: &Bold{},
-							},
-						}
-
-						// 如果段落有默认的Run属性，尝试继承
-						if len(templateRow.Cells) > i && len(templateRow.Cells[i].Paragraphs) > j {
-							templatePara := &templateRow.Cells[i].Paragraphs[j]
-							if len(templatePara.Runs) > 0 && templatePara.Runs[0].Properties != nil {
-								newRun.Properties = te.cloneRunProperties(templatePara.Runs[0].Properties)
-							}
-						}
-
-						newRow.Cells[i].Paragraphs[j].Runs = []Run{newRun}
-					}
+		for i := range newRow.Cells {
+			// 每个字符保持其所在Run的格式；循环标记本身被删除
+			for j := range newRow.Cells[i].Paragraphs {
+				if err := te.renderParagraph(&newRow.Cells[i].Paragraphs[j], variables, holds, nil, true); err != nil {
+					return err
 				}
+			}
 
-				// 处理嵌套表格中的变量替换
-				for k := range newRow.Cells[i].Tables {
-					// 创建模板数据，用于嵌套表格的变量替换
-					nestedData := NewTemplateData()
-					nestedData.Variables = make(map[string]interface{})
-					for key, value := range itemMap {
-						nestedData.Variables[key] = value
-					}
-					// 递归处理嵌套表格
-					err := te.replaceVariablesInTable(&newRow.Cells[i].Tables[k], nestedData)
-					if err != nil {
-						Debugf("处理嵌套表格变量替换时出错: %v", err)
-					}
+			// 处理嵌套表格中的变量替换
+			for k := range newRow.Cells[i].Tables {
+				nestedData := NewTemplateData()
+				nestedData.Variables = variables
+				nestedData.Conditions = data.Conditions
+				nestedData.Lists = data.Lists
+				nestedData.Images = data.Images
+				if err := te.replaceVariablesInTable(&newRow.Cells[i].Tables[k], nestedData); err != nil {
+					Debugf("处理嵌套表格变量替换时出错: %v", err)
 				}
 			}
 		}
@@ -2511,9 +2472,12 @@ func (te *TemplateEngine) renderTableTemplate(table *Table, data *TemplateData) 
 		newRows = append(newRows, *newRow)
 	}
 
-	// 保留模板行之后的行（深度克隆以保持样式）
-	for _, row := range table.Rows[templateRowIndex+1:] {
-		clonedRow := te.cloneTableRow(&row)
+	// 模板行之后的行
+	for idx := range table.Rows[templateRowIndex+1:] {
+		clonedRow := te.cloneTableRow(&table.Rows[templateRowIndex+1+idx])
+		if err := te.renderTableRow(clonedRow, data); err != nil {
+			return err
+		}
 		newRows = append(newRows, *clonedRow)
 	}
 
@@ -2521,6 +2485,41 @@ func (te *TemplateEngine) renderTableTemplate(table *Table, data *TemplateData) 
 	table.Rows = newRows
 
 	return nil
+}
+
+// renderTableRow 替换一行中所有单元格段落和嵌套表格里的变量
+func (te *TemplateEngine) renderTableRow(row *TableRow, data *TemplateData) error {
+	for i := range row.Cells {
+		for j := range row.Cells[i].Paragraphs {
+			if err := te.replaceVariablesInParagraph(&row.Cells[i].Paragraphs[j], data); err != nil {
+				return err
+			}
+		}
+		for k := range row.Cells[i].Tables {
+			if err := te.replaceVariablesInTable(&row.Cells[i].Tables[k], data); err != nil {
+				return err
+			}
+		}
+	}
+	return nil
+}
+
+// templateValueTruthy 把循环项的字段值转换为条件值
+func templateValueTruthy(value interface{}) bool {
+	switch v := value.(type) {
+	case bool:
+		return v
+	case string:
+		return v != ""
+	case int:
+		return v != 0
+	case int64:
+		return v != 0
+	case float64:
+		return v != 0.0
+	default:
+		return v != nil
+	}
 }
 
 // NewTemplateData 创建新的模板数据
